@@ -117,7 +117,8 @@ def check_decoder_input(ctx, rule, paths):
                 nm += 1
                 ctx.check(e.argtext(0) == 'input_file.readline().strip()', rule, 'decode:the-line-read', f_pa.loc(e.node), 'the decoder is given the line just read (whitespace-stripped)', 'the decoder is given %s' % e.argtext(0))
             if e.kind == 'call' and e.ftext == 'self.handle_message':
-                ctx.check([norm(a) for a in e.args] == ['message(input_file.readline().strip())[0]', 'message(input_file.readline().strip())[1]'], rule, 'decode:hands-over-result', f_pa.loc(e.node),
+                ctx.check([norm(a) for a in e.args] in (['message(input_file.readline().strip())[0]', 'message(input_file.readline().strip())[1]'], ['*message(input_file.readline().strip())']),
+                          rule, 'decode:hands-over-result', f_pa.loc(e.node),
                           'the decoded (connection id, message) pair is handed over unmodified', 'hands over %s' % e.text[:140])
     ctx.floor(rule, nm, 1, 'message() call in parse_all')
 
